@@ -10,10 +10,10 @@ demo=$(ls $out/*_test.go | head -1)
 res="{}"
 # without patch: demo passes
 cp $demo $wt/$demopkg/zz_demo_test.go
-go test -vet=off -count=1 -run 'Demo' ./$demopkg/ > /tmp/seed-$sid-nopatch.log 2>&1; np=$?
+go test $DEMOFLAGS -vet=off -count=1 -run Demo ./$demopkg/ > /tmp/seed-$sid-nopatch.log 2>&1; np=$?
 git apply $out/patch.diff || { echo "PATCH DOES NOT APPLY"; exit 1; }
 go build ./... || { echo "BUILD FAILS"; git checkout -q -- .; git clean -fdq; exit 1; }
-go test -vet=off -count=1 -run 'Demo' ./$demopkg/ > /tmp/seed-$sid-patch.log 2>&1; wp=$?
+go test $DEMOFLAGS -vet=off -count=1 -run Demo ./$demopkg/ > /tmp/seed-$sid-patch.log 2>&1; wp=$?
 rm $wt/$demopkg/zz_demo_test.go
 go test -json -vet=off -count=1 "$@" > /tmp/seed-$sid-suite.log 2>&1
 python3 /verif/tools/suite_check.py /tmp/seed-$sid-suite.log; st=$?
